@@ -60,7 +60,7 @@ class Emitter:
         self.uses = set()
 
     def ln(self):
-        return "yylineno" if self.track_ln else "-1"
+        return "yylineno" if self.track_ln else "VF_NOLN"
 
     # ------------------------------------------------------------- action ops -> C
     def ops_c(self, ops, indent="\t", in_yylex=True):
